@@ -77,6 +77,10 @@ func checkTwinComparison(c *Ctx, rule3, rule4 string, twin *ssa.Function, kBad i
 			A, B = at.Args[0], at.Args[1]
 		case at.Op == "call" && len(at.Args) == 2:
 			A, B = at.Args[0], at.Args[1]
+			if !isValueEquality(at.Aux) {
+				c.Fail(rule3, key, twin.Pos(), "the two values are compared with "+at.Aux+", which is not equality of the values (e.g. strings.EqualFold, a length comparison, a prefix test): rules that differ there count as twins")
+				continue
+			}
 		case at.Op == "field" && at.Args[0] == fP || at.Op == "field" && at.Args[0] == rP:
 			// bool field compared through iff: appears as two atoms (f.W, r.W)
 			compared[at.Aux] = true
@@ -669,7 +673,7 @@ func checkClientsEqual(c *Ctx, rule string) {
 		if u.Atom(at) == aNil || u.Atom(at) == bNil {
 			continue
 		}
-		okCmp := at.Op == "call" && len(at.Args) >= 2 && (strings.HasPrefix(at.Aux, "slices.Equal") || at.Aux == "reflect.DeepEqual")
+		okCmp := at.Op == "call" && len(at.Args) == 2 && isValueEquality(at.Aux)
 		if okCmp {
 			x, y := at.Args[0], at.Args[1]
 			if x.Op == "field" && y.Op == "field" && x.Aux == y.Aux && ((x.Args[0] == a && y.Args[0] == b) || (x.Args[0] == b && y.Args[0] == a)) {
@@ -755,4 +759,14 @@ func checkVerdictOnlyFromSelector(c *Ctx, rule string, gdb *ssa.Function) {
 		}
 		c.Check(bad == "", rule, shortFn(fn)+": DNSResult.NetworkRule = "+shortFn(gdb)+"(matched rules) or nil", fn.Pos(), fmt.Sprintf("%d store(s): every value leaf is the selector's return value", n), bad)
 	}
+}
+
+// isValueEquality: the library (and sibling) functions that decide equality of two values.
+func isValueEquality(name string) bool {
+	switch {
+	case name == "slices.Equal", strings.HasPrefix(name, "slices.Equal["), name == "reflect.DeepEqual", name == "bytes.Equal",
+		name == "maps.Equal", strings.HasPrefix(name, "maps.Equal["), strings.HasSuffix(name, "clients).Equal"):
+		return true
+	}
+	return false
 }
